@@ -270,7 +270,12 @@ class T:
 
     @staticmethod
     def call(fkey, generics, args):
-        return Term("call", fkey, tuple(generics), tuple(args))
+        args = tuple(args)
+        if fkey == "option::Option::ok_or" and len(args) == 2 and args[0].op == "agg" and args[0].args[1] == "option::Option":
+            if args[0].args[3] == "Some":
+                return T.agg("adt", "result::Result", 0, "Ok", [args[0].args[4][0]])
+            return T.agg("adt", "result::Result", 1, "Err", [args[1]])
+        return Term("call", fkey, tuple(generics), args)
 
     @staticmethod
     def discr(t):
